@@ -25,7 +25,7 @@ MUST_REACH = ["hessenbergize:n<=2", "householder:alpha_zero", "class:already_hes
 C = 1e3
 CLASSES = ["cancelling_tail", "equal_moduli_tail", "gauss", "hessenberg", "upper_tri", "lower_tri", "hermitian", "zero_subcolumns", "zero_matrix", "identity", "int", "sparse",
            "pure_imag", "single_axis", "rank1", "nilpotent", "scaled_small", "scaled_big", "layout", "tridiag", "unitary", "companion",
-           "near_hessenberg", "graded_columns", "nearly_hermitian", "block_upper_tri", "block_diag"]
+           "near_hessenberg", "graded_columns", "nearly_hermitian", "block_upper_tri", "block_diag", "near_real_pivot", "real_plus_tiny_vector_parts"]
 
 _REACH = None
 
@@ -151,6 +151,18 @@ def make(rng, cls, n):
                 c[j + 2:, j] = 0.0
             elif tk == 2:
                 c[j + 1:, j] = 0.0
+        return refq.qa(c)
+    if cls in ("near_real_pivot", "real_plus_tiny_vector_parts"):
+        # NEAR-real data (not real): the entry that carries the reflector's phase is real up to a vector part of relative size 1e-8 .. 1e-12, or
+        # the whole matrix is real up to such parts - the phase is still a genuine quaternion and must be carried
+        c = rng.standard_normal((n, n, 4))
+        t_ = float(rng.choice([3e-9, 1e-8, 1e-10, 1e-12]))
+        if cls == "near_real_pivot":
+            for k in range(max(0, n - 2)):
+                if rng.random() < 0.6 or k == 0:
+                    c[k + 1, k, 1:] = c[k + 1, k, 1:] * t_ * abs(c[k + 1, k, 0])
+        else:
+            c[..., 1:] *= t_
         return refq.qa(c)
     if cls == "zero_matrix":
         return refq.zeros(n, n)
